@@ -286,6 +286,12 @@ func prepareCall(fr *frame, call *ssa.CallCommon) (fn value, args []value) {
 		if recv.t == nil {
 			panic(runtimePanic("invalid memory address or nil pointer dereference (method " + call.Method.Name() + " invoked on nil interface)"))
 		}
+		if _, isOpaque := recv.v.(*opaque); isOpaque && recv.t == opaqueIfaceType {
+			for _, arg := range call.Args {
+				args = append(args, fr.get(arg))
+			}
+			return &opaqueCall{sig: call.Method.Type().(*types.Signature)}, args
+		}
 		f := fr.r.lookupMethod(recv.t, call.Method)
 		if f == nil {
 			panic(engineError{fmt.Sprintf("method set for dynamic type %v does not contain %s", recv.t, call.Method)})
@@ -313,6 +319,8 @@ func (r *run) call(caller *frame, callpos token.Pos, fn value, args []value) val
 		return r.callSSA(caller, callpos, fn.Fn, args, fn.Env)
 	case *ssa.Builtin:
 		return r.callBuiltin(caller, callpos, fn, args)
+	case *opaqueCall:
+		return opaqueResults(fn.sig)
 	}
 	panic(engineError{fmt.Sprintf("cannot call %T", fn)})
 }
@@ -533,4 +541,35 @@ func (p targetPanic) String() string {
 		return p.msg
 	}
 	return toString(p.v)
+}
+
+// Opaque interface values: results of no-op'd telemetry/logging packages that
+// are themselves interfaces.  Methods invoked on them are no-ops again.
+var opaqueIfaceType = types.NewNamed(types.NewTypeName(token.NoPos, nil, "vsymOpaque", nil), types.NewStruct(nil, nil), nil)
+
+type opaqueCall struct{ sig *types.Signature }
+
+func opaqueResults(sig *types.Signature) value {
+	res := sig.Results()
+	mk := func(t types.Type) value {
+		if it, ok := t.Underlying().(*types.Interface); ok {
+			if types.Identical(t, types.Universe.Lookup("error").Type()) {
+				return iface{}
+			}
+			_ = it
+			return iface{t: opaqueIfaceType, v: &opaque{tag: "iface:" + t.String()}}
+		}
+		return zero(t)
+	}
+	switch res.Len() {
+	case 0:
+		return nil
+	case 1:
+		return mk(res.At(0).Type())
+	}
+	out := make(tuple, res.Len())
+	for i := range out {
+		out[i] = mk(res.At(i).Type())
+	}
+	return out
 }
